@@ -351,7 +351,21 @@ def machine(tier, report, gate):
         @rule(b=st.integers(0, 2), kind=st.sampled_from(["name", "particle", "node"]), tgt=st.integers(0, 7),
               bidx=st.integers(0, len(BUILDER_NAMES) - 1))
         def assign(self, b, kind, tgt, bidx):
+            self.last_assign = (b, kind, tgt)
             self.do(["assign", b, kind, tgt, bidx])
+
+        @rule(bidx=st.integers(0, len(BUILDER_NAMES) - 1), between=st.booleans())
+        def replace_lineshape(self, bidx, between):
+            """The most recent assignment once more with another builder (optionally after a formulate, which may
+            raise the documented ValueError): nothing of the replaced lineshape may survive."""
+            last = getattr(self, "last_assign", None)
+            if last is None:
+                return
+            b, kind, tgt = last
+            if between:
+                self.do(["formulate", b])
+            self.do(["assign", b, kind, tgt, bidx])
+            self.do(["formulate", b])
 
         @rule(b=st.integers(0, 2))
         def permutate(self, b):
@@ -405,4 +419,16 @@ def fixed_cases(tier):
     ]}
     # witness of F6b: order of kinematic variables with permuted topologies under different hash seeds
     f6b = {"rA": r_a, "rB": r_b, "ops": [["permutate", 0], ["formulate", 0], ["formulate", 1]]}
-    return [f6, f6b]
+    # a lineshape replaced by another one on the same resonance: nothing of the first may survive in the model --
+    # neither when the first formulate() raised (form factor without L on the half-integer resonance: documented
+    # ValueError) nor when the first builder shares helper state with the second (form factor, constant width)
+    replaced = [
+        {"rA": r_a, "rB": r_b, "ops": [["assign", 0, "name", tgt, first], ["formulate", 0], ["assign", 0, "name", tgt, 2],
+                                       ["formulate", 0], ["formulate", 1]]}
+        for first in (3, 6) for tgt in (0, 1)
+    ]
+    replaced.append({"rA": r_a, "rB": r_b, "ops": [
+        ["assign", 0, "name", 0, 3], ["assign", 0, "name", 1, 3], ["formulate", 0],  # raises on the half-integer resonance
+        ["assign", 0, "name", 0, 2], ["assign", 0, "name", 1, 2], ["formulate", 0], ["formulate", 1],
+    ]})
+    return [f6, f6b, *replaced]
